@@ -349,7 +349,8 @@ impl Report {
             "wall_s": (wall * 1000.0).round() / 1000.0,
             "violations": unknown.len(),
         });
-        let evdir = format!("{VERIF_ROOT}/evidence");
+        // VERIF_EVIDENCE_DIR / VERIF_REPLAY_DIR redirect the output of a background run
+        let evdir = std::env::var("VERIF_EVIDENCE_DIR").unwrap_or_else(|_| format!("{VERIF_ROOT}/evidence"));
         let _ = std::fs::create_dir_all(&evdir);
         let evpath = format!("{evdir}/{}.json", self.property);
         let tmp = format!("{evpath}.tmp");
@@ -381,7 +382,8 @@ impl Report {
             return 0;
         }
 
-        let rdir = PathBuf::from(format!("{VERIF_ROOT}/replays/{}", self.property));
+        let rbase = std::env::var("VERIF_REPLAY_DIR").unwrap_or_else(|_| format!("{VERIF_ROOT}/replays"));
+        let rdir = PathBuf::from(format!("{rbase}/{}", self.property));
         let _ = std::fs::create_dir_all(&rdir);
         for (i, (sig, n, v)) in unknown.iter().enumerate() {
             if i >= 25 {
